@@ -128,7 +128,7 @@ func TestVerifC20Cluster(t *testing.T) {
 						nodes, err := m.API.ShardNodes(ctx, index, sh)
 						r.Eval(1)
 						if err != nil {
-							r.Fail("cluster:shardnodes-error:"+sig, id, err.Error(), cs)
+							r.FailOrUndecided("cluster:shardnodes-error:"+sig, id, err.Error(), cs)
 							return false
 						}
 						var got []string
@@ -138,19 +138,19 @@ func TestVerifC20Cluster(t *testing.T) {
 							seen[nd.ID] = true
 						}
 						if len(got) != wantN || len(seen) != wantN {
-							r.Fail("cluster:owner-count:"+sig, id, fmt.Sprintf("node %s answers owners %v for %s/%d; want %d distinct members", ids[k], got, index, sh, wantN), cs)
+							r.FailOrUndecided("cluster:owner-count:"+sig, id, fmt.Sprintf("node %s answers owners %v for %s/%d; want %d distinct members", ids[k], got, index, sh, wantN), cs)
 							return false
 						}
 						g := strings.Join(got, ",")
 						if k == 0 {
 							first = g
 						} else if g != first {
-							r.Fail("cluster:nodes-disagree:"+sig, id, fmt.Sprintf("owners of %s/%d: node %s says [%s], node %s says [%s]", index, sh, ids[0], first, ids[k], g), cs)
+							r.FailOrUndecided("cluster:nodes-disagree:"+sig, id, fmt.Sprintf("owners of %s/%d: node %s says [%s], node %s says [%s]", index, sh, ids[0], first, ids[k], g), cs)
 							return false
 						}
 						own := pilosa.VerifOwnsShard(m.API, index, sh)
 						if own != seen[m.API.Node().ID] {
-							r.Fail("cluster:self-ownership:"+sig, id, fmt.Sprintf("node %s: ownsShard(%s/%d)=%v but owner list is [%s]", m.API.Node().ID, index, sh, own, g), cs)
+							r.FailOrUndecided("cluster:self-ownership:"+sig, id, fmt.Sprintf("node %s: ownsShard(%s/%d)=%v but owner list is [%s]", m.API.Node().ID, index, sh, own, g), cs)
 							return false
 						}
 					}
@@ -162,7 +162,7 @@ func TestVerifC20Cluster(t *testing.T) {
 					if second {
 						r.Eval(1)
 						if answers[key] != s {
-							r.Fail("cluster:join-order-dependent:"+sig, id, fmt.Sprintf("owners of %s: {%s} when joined as %v, {%s} when the same IDs join in another order", key, answers[key], ids, s), cs)
+							r.FailOrUndecided("cluster:join-order-dependent:"+sig, id, fmt.Sprintf("owners of %s: {%s} when joined as %v, {%s} when the same IDs join in another order", key, answers[key], ids, s), cs)
 							return false
 						}
 					} else {
@@ -190,7 +190,7 @@ func TestVerifC20Cluster(t *testing.T) {
 				via := rng.Intn(nn)
 				cs.Index, cs.Shard, cs.Step = index, sh, fmt.Sprintf("Set(%d, f=3) via node %s", col, ids[via])
 				if _, err := c[via].API.Query(ctx, &pilosa.QueryRequest{Index: index, Query: fmt.Sprintf("Set(%d, f=3)", col)}); err != nil {
-					r.Fail("cluster:write-error:"+sig, id, err.Error(), cs)
+					r.FailOrUndecided("cluster:write-error:"+sig, id, err.Error(), cs)
 					ok = false
 					break
 				}
@@ -204,7 +204,7 @@ func TestVerifC20Cluster(t *testing.T) {
 					got, _ := pilosa.VerifFragPositions(m.Server.Holder(), index, "f", "standard", sh)
 					has := len(got) > 0
 					if has != owner[m.API.Node().ID] {
-						r.Fail("cluster:write-placement:"+sig, id, fmt.Sprintf("%s: node %s holds the bit=%v, is owner=%v (owners %v)", cs.Step, m.API.Node().ID, has, owner[m.API.Node().ID], nodes), cs)
+						r.FailOrUndecided("cluster:write-placement:"+sig, id, fmt.Sprintf("%s: node %s holds the bit=%v, is owner=%v (owners %v)", cs.Step, m.API.Node().ID, has, owner[m.API.Node().ID], nodes), cs)
 						ok = false
 						break
 					}
@@ -221,14 +221,14 @@ func TestVerifC20Cluster(t *testing.T) {
 				for _, m := range c {
 					cs.Step = "holder cleaner on node " + m.API.Node().ID
 					if err := pilosa.VerifCleanHolder(m.API); err != nil {
-						r.Fail("cluster:cleaner-error:"+sig, id, err.Error(), cs)
+						r.FailOrUndecided("cluster:cleaner-error:"+sig, id, err.Error(), cs)
 						ok = false
 						break
 					}
 					r.Eval(1)
 					_, exists := pilosa.VerifFragPositions(m.Server.Holder(), index, "f", "standard", sh)
 					if exists != owner[m.API.Node().ID] {
-						r.Fail("cluster:cleanup-placement:"+sig, id, fmt.Sprintf("after cleanup node %s has fragment %s/f/standard/%d = %v, is owner = %v", m.API.Node().ID, index, sh, exists, owner[m.API.Node().ID]), cs)
+						r.FailOrUndecided("cluster:cleanup-placement:"+sig, id, fmt.Sprintf("after cleanup node %s has fragment %s/f/standard/%d = %v, is owner = %v", m.API.Node().ID, index, sh, exists, owner[m.API.Node().ID]), cs)
 						ok = false
 						break
 					}
